@@ -293,8 +293,16 @@ func runC03(r *Run) {
 	hb.Done()
 
 	// ---- Add stays inside the buffer it grew
-	ab := r.Rule("C03.addbounds", "the upper bound of every slice of Raw in Add is proved within len(Raw) from the grow that precedes it, for every capacity the caller's buffer may have: Add (which has no error result) does not panic on a buffer whose spare capacity ends inside the attribute or its padding", 3)
-	if addF := p.Meth("Message", "Add"); addF != nil && addF.Blocks != nil {
+	ab := r.Rule("C03.addbounds", "the upper bound of every slice of Raw in Add and in the integrity and fingerprint setters is proved within len(Raw) from the grow that precedes it, for every capacity the caller's buffer may have and for a message that has no header yet: Add (which has no error result) does not panic on a buffer whose spare capacity ends inside the attribute or its padding, the two setters do not panic on new(Message)", 5)
+	var abFns []*ssa.Function
+	for _, f := range []*ssa.Function{p.Meth("Message", "Add"), p.MethodOf(p.Named("FingerprintAttr"), "AddTo"), p.MethodOf(p.Named("MessageIntegrity"), "AddTo")} {
+		if f == nil || f.Blocks == nil {
+			ab.Fail("Add / FingerprintAttr.AddTo / MessageIntegrity.AddTo", "not found")
+			continue
+		}
+		abFns = append(abFns, f)
+	}
+	for _, addF := range abFns {
 		r.Analysed(addF)
 		// where int has 32 bits int(m.Length) is taken to be the value of the uint32 field and the sums of lengths
 		// are taken not to wrap: a message of 2 GiB does not exist (the header's length field has 16 bits)
@@ -344,8 +352,6 @@ func runC03(r *Run) {
 				ab.Violation(addF, instrPos(ob.In), ob.Desc, "cannot prove "+failed+" from the grow that precedes this slice: on a caller-supplied buffer whose capacity ends below the bound Add panics (it has no error result), where growing first would have reallocated")
 			}
 		}
-	} else {
-		ab.Fail("Message.Add", "not found")
 	}
 	ab.Done()
 
@@ -398,6 +404,15 @@ func runC03(r *Run) {
 					en.Violation(wa, instrPos(s), "Attributes = "+exprDepth(s.Val, 0), "the list is truncated with a capacity clamp: Add appends into a fresh array that is thrown away when the saved list is restored, so after Encode the struct shows the caller's stale entries (lengths, value slices) while the bytes carry the re-encoded ones")
 				} else if valueIsLoadOfField(sl.X, attrsF) {
 					okTrunc = true
+					// and before the attributes are re-added: appended behind the old entries they land in other
+					// slots (or another array), and the list restored afterwards still shows the stale ones
+					if addF := p.Meth("Message", "Add"); addF != nil {
+						eachInstr(wa, func(_ *ssa.BasicBlock, _ int, in ssa.Instruction) {
+							if callsFn(in, addF) && !instrDominates(s, in) {
+								en.Violation(wa, instrPos(in), "attributes re-added before the list is truncated", "Add appends behind the entries that are already there: the list restored afterwards holds the old entries, whose value slices point into the buffer as it was before Encode rebuilt (and possibly reallocated) it")
+							}
+						})
+					}
 				}
 			}
 		}
